@@ -239,6 +239,27 @@ Lemma sendonly_chan_refuted_w :
   run_model PDup [AChan DSend (ABasic KInt)] = Err /\
   run_model PDup [AChan DRecv (ABasic KInt)] = Ok.
 Proof. vm_compute. repeat split. Qed.
+(* C09-fix-variadic-function-arguments: the parameter of `func(xs ...int) R` has the type []int, so
+   the Add functions of pipeline, fmap and the predicate plugins accepted it next to arguments over
+   []int, and the generated code declares `func([]int) R` / calls f with a slice.
+   w1: derivePipeline(func(...int) <-chan int, func(int) <-chan string);
+   w2: deriveFmap(func(...int) string, [][]int); w3: deriveFilter(func(...int) bool, [][]int) *)
+Definition vw_pipeline : list aty :=
+  [ASig (TCons (ASlice (ABasic KInt)) TNil) (TCons (AChan DRecv (ABasic KInt)) TNil) true;
+   ASig (TCons (ABasic KInt) TNil) (TCons (AChan DRecv (ABasic KString)) TNil) false].
+Definition vw_fmap (v : bool) : list aty :=
+  [ASig (TCons (ASlice (ABasic KInt)) TNil) (TCons (ABasic KString) TNil) v; ASlice (ASlice (ABasic KInt))].
+Definition vw_filter (v : bool) : list aty :=
+  [ASig (TCons (ASlice (ABasic KInt)) TNil) (TCons (ABasic KBool) TNil) v; ASlice (ASlice (ABasic KInt))].
+Lemma variadic_argument_refuted_w :
+  add_pipeline_prefix vw_pipeline = Ok /\ must_report PPipeline vw_pipeline = true /\
+  run_model PPipeline vw_pipeline = Err /\
+  (match vw_fmap true with [f; ASlice e] => fmap_fn1_prefix f e | _ => Err end) = Ok /\
+  must_report PFmap (vw_fmap true) = true /\ run_model PFmap (vw_fmap true) = Err /\
+  run_model PFmap (vw_fmap false) = Ok /\
+  add_pred_prefix (vw_filter true) = Ok /\ must_report PFilter (vw_filter true) = true /\
+  run_model PFilter (vw_filter true) = Err /\ run_model PFilter (vw_filter false) = Ok.
+Proof. vm_compute. repeat split. Qed.
 (* C09-fix-untyped-constant-argument: hash.Add was add_one, and the generator has a case for the
    untyped nil: deriveHash(nil) went through and printed `untyped nil` as the parameter type *)
 Lemma untyped_nil_refuted_w :
